@@ -595,6 +595,36 @@ Definition frames_of (fs : list bytes) : bytes := flat_map (fun f => encode (ble
 (* multistream-select LengthDelimited: the length of the frame buffer it resizes to *)
 Definition ld_frame_len (st : V.C03.Model.rstate) : N := match st with V.C03.Model.RBody n _ => n | V.C03.Model.RLen _ => 0 end.
 
+
+(* ================================================================== message-based multistream (WebRTC) *)
+(* decode_multistream_message / webrtc_listener_negotiate / WebRtcDialerState::register_response:
+   C03's executable model (V.C03.Model.webrtc_decode1, webrtc_listener, webrtc_dialer_register)
+   is reused.  The model compares the declared length with what is left (`len tail <? l`) in
+   unbounded N: there is no `len_size + len` that could overflow. *)
+Definition wl_negotiate (names : list bytes) (payload : bytes) (header_received : bool) : V.C03.Model.wl_res :=
+  V.C03.Model.webrtc_listener (V.C03.Model.tag_from 0 names) payload header_received.
+
+Definition wd_code (r : V.C03.Model.wd_res) : N :=
+  match r with
+  | V.C03.Model.WDNotReady => 0
+  | V.C03.Model.WDSucceeded => 1
+  | V.C03.Model.WDRejected => 2
+  | V.C03.Model.WDErr c => 10 + c
+  end.
+(* register_response applied to a sequence of payloads, the handshake state threaded through *)
+Fixpoint run_regs (proto : bytes) (waiting : bool) (ops : list bytes) : list N :=
+  match ops with
+  | [] => []
+  | pl :: t =>
+      let '(w', r) := V.C03.Model.webrtc_dialer_register (S (length pl)) proto waiting pl in
+      wd_code r :: run_regs proto w' t
+  end.
+Definition wl_reply_len (r : V.C03.Model.wl_res) : N :=
+  match r with
+  | V.C03.Model.WLAccepted _ b | V.C03.Model.WLRejected b | V.C03.Model.WLPendingProtocol b => blen b
+  | V.C03.Model.WLErr _ => 0
+  end.
+
 (* ================================================================== allocation bound *)
 (* What the harness compares the measured peak (bytes allocated during one decode call, input
    excluded) with.  Every decoded byte string is copied once (<= |input| in total); the
